@@ -4,9 +4,12 @@
  *        diff --replay <ops-file> <model-in> <c-out> <oracle-file>                  (execute an op file)
  *
  * ops-file : C-level commands (replayable, shrinkable): synth/dup/name/iadd/iset/irepl/irem/mem/misc/
- *            restrict/allow/pair/hand.
+ *            restrict/allow/pair/hand/xdiff (xdiff <ref> <mseed> <entry>*: a hand-built list through the XML exporter,
+ *            importer and the mutated-document stream; `pair` sends every built list the same way).
  * model-in : the lines for `hwmodel diff` (topology descriptions observed from the real structures,
- *            build/apply requests carrying the real diff entries); c-out: the real answers, line-aligned.
+ *            build/apply requests carrying the real diff entries; `xexp <backend> <ref> <entry>*` = export, answered with the
+ *            attribute lists scanned from the exported text [+ the exact text for nolibxml]; `xload <backend> <tokens>` = load
+ *            of a token-level document); c-out: the real answers, line-aligned.
  * oracle   : property checks done on the C side alone: "O <opno> <name> <pass|fail> <class>".
  *            class = "-" or the known-finding class F13c (duplicate info names) when the input is outside the hypotheses.
  */
